@@ -2,6 +2,7 @@ package checks
 
 import (
 	"fmt"
+	"runtime"
 	"sort"
 
 	"verifharness/core"
@@ -29,4 +30,16 @@ func slowest(run *core.Run, n int, f func(i int) (int64, string)) {
 	}
 	run.SetExtra("child_cpu_total_s", tot/1000)
 	run.SetExtra("most_expensive_cases", top)
+}
+
+func yield() { runtime.Gosched() }
+
+func numGoroutines() int { return runtime.NumGoroutine() }
+
+// setMaxProcs sets GOMAXPROCS (0 = all CPUs) and returns the previous value
+func setMaxProcs(n int) int {
+	if n <= 0 {
+		n = runtime.NumCPU()
+	}
+	return runtime.GOMAXPROCS(n)
 }
